@@ -306,6 +306,15 @@ class Transforms(Sub):
                          worst=float(np.max(np.abs(lhs - rhs) / np.maximum(tol, 1e-300))))
         if not (np.array_equal(f, f0) and np.array_equal(dom.r, r0) and np.array_equal(dom.k, k0)):
             out.fail(sig + 'input-modified', 'a transform modified its input array or the grid')
+        # the same data handed over as a strided view of a longer buffer: identical result, buffer untouched
+        buf = np.empty(2 * n)
+        buf[0::2] = f
+        buf[1::2] = 3.25
+        for name, T in (('fourier', dom.to_fourier), ('real', dom.to_real)):
+            if not np.array_equal(np.asarray(T(buf[0::2])), np.asarray(T(f.copy())), equal_nan=True):
+                out.fail(sig + 'depends-on-memory-layout', 'to_%s gives a different result for a strided view than for a contiguous array' % name)
+        if not (np.array_equal(buf[0::2], f) and np.all(buf[1::2] == 3.25)):
+            out.fail(sig + 'input-modified', 'a transform wrote into the buffer behind a strided view')
         # MatrixArray versions
         rank = spec['rank']
         for direction in ('fourier', 'real'):
